@@ -134,6 +134,9 @@ func toGo(v Value) interface{} {
 	switch v.T {
 	case "shape":
 		return shapeOfKind(v.Kind)
+	case "privptr": // struct with unexported pointer-bearing fields: its text must not show an address
+		n := v.I
+		return privHolder{limit: &n, inner: struct{ p *int }{&n}, m: map[string]*int{"k": &n}, N: v.I}
 	case "time":
 		return time.Unix(int64(v.I), 0).UTC()
 	case "ptrstruct": // a struct with a pointer field: its text must not show the address
@@ -176,6 +179,24 @@ func toGo(v Value) interface{} {
 		return txt
 	case "list":
 		switch v.G {
+		case "tags": // a named slice type
+			out := make(tagsType, len(v.Xs))
+			for i, x := range v.Xs {
+				out[i] = textOf(x.S, nil, false)
+			}
+			return out
+		case "i64s":
+			out := make([]int64, len(v.Xs))
+			for i, x := range v.Xs {
+				out[i] = int64(x.I)
+			}
+			return out
+		case "f32s":
+			out := make([]float32, len(v.Xs))
+			for i, x := range v.Xs {
+				out[i] = float32(x.I)
+			}
+			return out
 		case "strs":
 			out := make([]string, len(v.Xs))
 			for i, x := range v.Xs {
@@ -262,6 +283,12 @@ func toGo(v Value) interface{} {
 			out := map[int]string{}
 			for i, k := range v.Ks {
 				out[k.I] = textOf(v.Vs[i].S, nil, false)
+			}
+			return out
+		case "mi64big": // int64 keys above 2^53 that are close together
+			out := map[int64]string{}
+			for i, k := range v.Ks {
+				out[1234567890123456700+int64(k.I)] = textOf(v.Vs[i].S, nil, false)
 			}
 			return out
 		case "mia":
@@ -389,6 +416,12 @@ func dump(v interface{}) string {
 		return "{" + strings.Join(parts, ",") + "}"
 	case reflect.Int, reflect.Int8, reflect.Int16, reflect.Int32, reflect.Int64:
 		return fmt.Sprintf("i%d", rv.Int())
+	case reflect.Uint, reflect.Uint8, reflect.Uint16, reflect.Uint32, reflect.Uint64:
+		return fmt.Sprintf("i%d", rv.Uint())
+	case reflect.Float32, reflect.Float64:
+		return dump(rv.Float())
+	case reflect.String:
+		return dump(rv.String())
 	}
 	return fmt.Sprintf("?%T:%v", v, v)
 }
@@ -583,4 +616,13 @@ func shapeOfKind(kind string) interface{} {
 		return map[string]interface{}{"a": map[string]interface{}{"b": map[string]interface{}{"c": []interface{}{map[string]interface{}{"d": 1}}}}}
 	}
 	return nil
+}
+
+type tagsType []string
+
+type privHolder struct {
+	limit *int
+	inner struct{ p *int }
+	m     map[string]*int
+	N     int
 }
